@@ -178,6 +178,72 @@ def judge(case, obs, pid=PID):
     return v
 
 
+def run_cross(case, chooser=None):
+    """two origins at once: the NETWORK_ACK of the second message is routed THROUGH the first
+    origin while that one waits for its own (safety clause only: True => own ACK arrived)"""
+    net = copy.deepcopy(template(case["cost"], tuple(case["tmo"])))
+    net.w.activate()
+    H.reset_frame_ids()
+    H.set_frame_id(case.get("id0", 0))
+    net.lat = N.LAT[case["lat"]]
+    w = net.w
+    decided = {}
+
+    def fault(pkt):
+        if pkt.is_ack or chooser is None:
+            return False
+        key = (pkt.src.name, pkt.addr, pkt.payload)
+        d = decided.get(key)
+        if d is None:
+            f = N.parse_frame(pkt.payload)
+            d = decided[key] = bool(chooser.choose(2, "hop:%s:%s:%o" % (pkt.src.name, f["type"] if f else "raw", f["from"] if f else 0)))
+        return d
+    w.fault = fault
+    senders = case["senders"]  # [[src, dst, mtype, start_ms], ...]
+    obs = {"ret": {}, "t1": {}, "c07": []}
+
+    def script(src, dst, mtype, start):
+        def f(ctx):
+            n = net.nodes[src]
+            ctx.wait(1 * MS + start * MS)
+            obs["ret"][src] = n.send(H.RF24NetworkHeader(dst, mtype), H.pattern(5, case.get("seed", 0), src))
+            obs["t1"][src] = w.now
+            bad = N.listening_violations(n, net.radios[src])
+            if bad:
+                obs["c07"].append((src, tuple(bad)))
+            net.serve(ctx, src, (case["tmo"][1] + 4 * case["tmo"][0] + 150) * MS)
+        return f
+    net.run({s[0]: script(*s) for s in senders})
+    obs["aborted"] = w.aborted
+    obs["exc"] = {k: type(e).__name__ + ": " + str(e)[:80] for k, e in net.exc.items()}
+    air = net.air()
+    obs["npkts"] = len(air)
+    obs["own_nack"] = {}
+    for src, dst, mtype, start in senders:
+        sname = net.radios[src].name
+        obs["own_nack"][src] = [p.end for p in air if not p.is_ack and sname in p.heard_by
+                                and (N.parse_frame(p.payload) or {}).get("type") == 193 and N.parse_frame(p.payload)["to"] == src]
+    obs["faults"] = [k[0] for k, v in decided.items() if v]
+    obs["nchoices"] = len(chooser.trace) if chooser else 0
+    return obs
+
+
+def judge_cross(case, obs, pid=PID):
+    v = []
+    shape = "cross:%s" % ("fault" if obs["faults"] else "nofault")
+    if obs["aborted"]:
+        v.append(("%s/nontermination:%s" % (pid, shape), "virtual-time horizon hit"))
+    for key, e in obs["exc"].items():
+        v.append(("%s/exception:%s:%s" % (pid, e.split(":")[0], shape), "node %o raised %s" % (key, e)))
+    for src, dst, mtype, start in case["senders"]:
+        ret = obs["ret"].get(src)
+        if ret is True and not [a for a in obs["own_nack"][src] if a <= obs["t1"][src]]:
+            v.append(("%s/true-without-ack:%s" % (pid, shape), "write() at %o returned True but no NETWORK_ACK addressed to it had reached it (a foreign one was routed through it)" % src))
+    for key, bad in obs["c07"]:
+        v.append(("%s/not-listening:%s" % (pid, bad[0]), "origin %o after write(): %s" % (key, ",".join(bad))))
+    return v
+
+
 def outcome_key(case, obs):
     hops = 1 if case.get("multicast") else len(N.tree_path(case["src"], case["dst"])) - 1
     return "hops%d:%s:ret=%r:nacks=%d:delivered=%d:faults=%d" % (hops, tclass(case["mtype"] & 0xFF), obs["ret"], len(obs["originators"]),
@@ -187,6 +253,17 @@ def outcome_key(case, obs):
 def w_cases(item, rep):
     cases, bound = item
     for case in cases:
+        if "senders" in case:
+            for ch, obs in explore(lambda c: run_cross(case, c), bound, max_execs=case.get("max_execs", 3000), rep=rep):
+                rep.case()
+                rep.traces += 1
+                rep.transitions += obs["npkts"]
+                rep.part("cross", executions=1, packets=obs["npkts"], faulted=int(bool(obs["faults"])))
+                rep.outcome("cross:rets=%s:faults=%d" % (sorted(obs["ret"].values(), key=str), len(obs["faults"])))
+                rep.nt(repr((sorted(case.items(), key=str), ch.choices())))
+                for sig, what in judge_cross(case, obs):
+                    rep.violation(sig, what, {"case": case, "choices": [list(t) for t in ch.trace]})
+            continue
         for ch, obs in explore(lambda c: run_case(case, c), bound, max_execs=case.get("max_execs", 3000), rep=rep):
             rep.case()
             rep.traces += 1
@@ -225,6 +302,11 @@ def build_items(tier, seed):
         for t0 in range(0, 256, 8):
             items.append(([dict(src=s, dst=d, mtype=t, mlen=t % 25, tmo=[25, 75], cost=0, lat=0, seed=seed, id0=t * 3) for t in range(t0, t0 + 8)],
                           1 if tier == "quick" else 2))
+    # cross traffic: a foreign NETWORK_ACK is routed through an origin that waits for its own
+    for start in (0, 2, 5, 10, 20, 40):
+        for first, second in ((O("1"), O("11")), (O("11"), O("1"))):
+            items.append(([dict(senders=[[first, O("2"), 66, 0], [second, O("2"), 67, start]], tmo=[25, 75], cost=0, lat=0, seed=seed, id0=start)],
+                          1 if tier == "quick" else 2))
     # multicasts of ack-range types never cause a NETWORK_ACK
     for lvl in (0, 1, 2):
         items.append(([dict(src=O("1"), dst=O("0"), mtype=t, mlen=3, tmo=[25, 75], cost=0, lat=0, seed=seed, id0=9, multicast=True, multicast_level=lvl)
@@ -247,7 +329,8 @@ def run(tier, seed, rep, only=None):
         bounds=dict(routes=["%o->%o" % r for r in ROUTES], timeouts=[list(t) for t in TIMEOUTS], all_256_types_on="1->2 (2 hops)",
                     failure_points_per_execution="1" if tier == "quick" else "3 on routes <= 3 hops, 2 elsewhere (1 on 8-hop routes in the non-default timing classes)"),
         trusted_base=["vf/sim.py", "vf/net.py"],
-        assumptions=["a lost frame hop stays lost (every retransmission of that frame by that node is dropped); hardware ACKs are not dropped here (C02 covers ACK loss)",
+        assumptions=["cross-traffic part (two origins, the second one's NETWORK_ACK routed through the first): only the safety clause True => own NETWORK_ACK arrived, exceptions and termination are judged",
+                     "a lost frame hop stays lost (every retransmission of that frame by that node is dropped); hardware ACKs are not dropped here (C02 covers ACK loss)",
                      "NETWORK_ACK arrival within +-3 ms of the route_timeout deadline accepts either return value"],
         min_outcomes=6,
     )
@@ -256,6 +339,12 @@ def run(tier, seed, rep, only=None):
 def replay(data):
     r = data["replay"]
     case = r["case"]
+    if "senders" in case:
+        obs = run_cross(case, Chooser([tuple(t) for t in r.get("choices", [])]))
+        print(obs)
+        viol = judge_cross(case, obs, data.get("property", PID))
+        want = data.get("signature")
+        return [(s, w) for s, w in viol if s == want] or viol
     obs = run_case(case, Chooser([tuple(t) for t in r.get("choices", [])]))
     print({k: v for k, v in obs.items() if k not in ("msg", "queues")})
     viol = judge(case, obs, data.get("property", PID))
